@@ -5,7 +5,12 @@ A *case* is a JSON object::
     {"role": "server"|"client", "fbd": bool, "echo": bool, "cht": int, "sdt": int,
      "start": "open"|"connecting", "seg": "whole"|"bytewise"|"split2", "fc": bool,
      "react": null|"close"|"msg"|"prepared",          # what the app does from inside onMessage
-     "events": [[name, arg, ...], ...]}
+     "events": [[name, arg, ...], ...],
+     # asynchronous opening-handshake family (start == "connecting"):
+     "async": null|"onconnect"|"onconnecting",        # server onConnect() / client onConnecting() return a PENDING
+                                                      # Deferred (Twisted) / Future (asyncio) the harness resolves with
+                                                      # the event ["res", kind]; "oht": openHandshakeTimeout;
+     "late": kind}                                    # how a still pending result is resolved AFTER the transport is gone
 
 The harness plays the peer with raw octets (``rfc6455_ref.encode_frame``), owns virtual time and
 the transport.  Everything asserted is what the property statement says (see checks/c05.py);
@@ -95,6 +100,14 @@ class _HookMixin:
         if m is not None:
             self.__dict__["vf_on_state"] = m.on_state
             self.__dict__["vf_on_app"] = m.on_app
+            self.__dict__["vf_mon"] = m
+
+    def onConnecting(self, transport_details):
+        # client: "may return a ConnectingRequest (or a future which resolves to one)" before the request is sent
+        m = self.__dict__.get("vf_mon")
+        if m is not None and m.amode == "onconnecting":
+            return m.app_pending("onConnecting")
+        return super().onConnecting(transport_details)
 
 
 def _base(role):
@@ -142,6 +155,13 @@ class Mon:
         self.frames_parsed = 0
         self.bounded = None
         self.used_sync = False
+        # asynchronous opening handshake (server onConnect / client onConnecting returning a pending future)
+        self.amode = case.get("async")
+        self.pending = []               # [future, done?] created by the application callback
+        self.preres = None              # result chosen before the callback ran -> it returns an already fired future
+        self.n_resolved = 0
+        self.res_timing = []            # when each result was delivered: while-connecting | after-timeout | after-local-drop | after-lost
+        self.evidx = None               # index into ep.events at the time onClose was delivered
 
     # ---- violations -------------------------------------------------------------------------------
     def violation(self, clause, what, **detail):
@@ -188,6 +208,8 @@ class Mon:
             lost = bool(self.ep is not None and self.ep.lost)
             self.onclose.append((self.now(), data[0], data[1], data[2], lost))
             self.wal_at_onclose = self.ep.writes_after_lost if self.ep is not None else 0
+            if self.evidx is None and self.ep is not None:
+                self.evidx = len(self.ep.events)
             if len(self.onclose) == 1:
                 self.R.count("onclose_delivered")
                 if not lost:
@@ -398,7 +420,9 @@ class Mon:
                                "state_before": self.cur_state, "vt": self.now(), "end": len(data)})
             else:
                 data += s[1]
-        if not self.hs_done or not self.opened:
+        if not self.hs_done or (not self.opened and not self.awaiting_result()):
+            # not received as a WebSocket frame: fed before / instead of the opening handshake.  (While the server's
+            # asynchronous onConnect() result is pending the frame is buffered and processed once the handshake completes.)
             closes = []
         fed = self.feed(data, "peer-close" if closes else "peer-frames")
         for c in closes:
@@ -410,18 +434,103 @@ class Mon:
     def ev_hs(self):
         if self.hs_done:
             return
-        self.hs_done = True
         self.site = "handshake"
         if self.role == "server":
-            req, _ = ref.client_request(key=HS_KEY)
+            self.hs_done = True
+            req, _ = ref.client_request(key=HS_KEY, protocols=["p1", "p2"] if self.amode else None)
             if self.deliverable():
                 self.ep.feed(req)
         else:
             parsed = ref.parse_http_head(bytes(self.ep.all_out))
+            if self.amode and not parsed:
+                return          # the client has not sent its request yet (onConnecting() pending): a server has nothing to answer
+            self.hs_done = True
             if parsed and self.deliverable():
                 key = (parsed[1].get("sec-websocket-key") or [HS_KEY])[0]
                 self.ep.feed(ref.server_response(key))
         self.world.settle()
+
+    # ---- asynchronous application decisions during the opening handshake ------------------------------
+    def new_future(self):
+        if self.world.fw == "tx":
+            from twisted.internet.defer import Deferred
+
+            return Deferred()
+        return self.world.loop.create_future()
+
+    def app_pending(self, which):
+        """called from inside the application callback (server onConnect / client onConnecting): returns a future"""
+        fut = self.new_future()
+        rec = [fut, False, which]
+        self.pending.append(rec)
+        self.R.count("async_callbacks_pending")
+        if self.preres is not None:
+            kind, self.preres = self.preres, None
+            self.R.count("async_resolved_before_callback")
+            self._resolve(rec, kind)
+        return fut
+
+    def script_on_connect(self, proto, request):
+        return self.app_pending("onConnect")
+
+    def awaiting_result(self):
+        return any(not r[1] for r in self.pending)
+
+    def _resolve(self, rec, kind):
+        from autobahn.websocket.types import ConnectingRequest, ConnectionDeny
+
+        rec[1] = True
+        fut = rec[0]
+        if self.role == "server":
+            val = {"none": None, "proto": "p1", "tuple": ("p2", {"X-C05": "yes"}), "tuple0": (None, {"X-C05": ["a", "b"]}),
+                   "deny": ConnectionDeny(403, "denied by application"), "exc": RuntimeError("application failed")}[kind]
+        else:
+            val = {"none": None, "req": ConnectingRequest(host="127.0.0.1", port=9000, resource="/c05", headers={"X-C05": "yes"}),
+                   "exc": RuntimeError("application failed")}[kind]
+        if isinstance(val, Exception):
+            if self.world.fw == "tx":
+                from twisted.python.failure import Failure
+
+                fut.errback(Failure(val))
+            else:
+                fut.set_exception(val)
+        elif self.world.fw == "tx":
+            fut.callback(val)
+        else:
+            fut.set_result(val)
+
+    def ev_res(self, kind="none"):
+        """the application's pending decision arrives"""
+        if not self.amode:
+            return
+        if self.role == "client" and kind not in ("none", "req", "exc"):
+            kind = "exc" if kind in ("deny", "exc") else "none"
+        fail = kind in ("deny", "exc")
+        if self.role == "server":
+            self.site = "onConnect-denied" if fail else "onConnect-accepted"
+        else:
+            self.site = "onConnecting-failed" if fail else "onConnecting-resolved"
+        rec = next((r for r in self.pending if not r[1]), None)
+        if rec is None:
+            if not self.pending:
+                self.preres = kind      # decided before the library asked: the callback will return an already fired future
+            return
+        ep = self.ep
+        if ep.lost:
+            timing = "after-lost"
+        elif self.cur_state == ST_CLOSED:
+            timing = "after-timeout" if getattr(self.proto, "wasOpenHandshakeTimeout", False) else "after-local-drop"
+        else:
+            timing = "while-connecting"
+        self.n_resolved += 1
+        self.res_timing.append(timing)
+        self.R.count("async_resolved_" + timing.replace("-", "_"))
+        self.R.seen("async_resolutions", "%s/%s/%s" % (self.role, kind, timing))
+        was_open = self.opened
+        self._resolve(rec, kind)
+        self.world.settle()
+        if not was_open and self.opened:
+            self.R.count("async_opened_by_result")
 
     def ev_close(self, code=None, reason="none"):
         r = REASONS[reason]
@@ -550,18 +659,36 @@ class Mon:
         self.world.settle()
         self.scan_output()
         ep = self.ep
+        n = 0
         if self.onclose and self.wal_at_onclose is not None and ep.writes_after_lost > self.wal_at_onclose:
             n = ep.writes_after_lost - self.wal_at_onclose
             self.wal_at_onclose = ep.writes_after_lost
-            self.violation("write-after-onClose/%s" % self.last_api_site(name),
-                           "%d transport write(s) after onClose had been delivered (during %s)" % (n, name), site=name)
+        if self.onclose and self.evidx is not None:
+            # the endpoint log sees every transport.write() call, also those on a transport that was aborted before it
+            # was lost (which the fake Twisted transport does not count in writes_after_lost)
+            evs = ep.events
+            n2 = sum(1 for i in range(self.evidx, len(evs)) if evs[i][1] in WRITE_EVENTS)
+            self.evidx = len(evs)
+            n = max(n, n2)
+        detached = 0
         if self.world.escaped:
             for who, e in self.world.escaped:
                 self.R.count("escaped_to_framework")
                 self.R.seen("escaped_kinds", "%s/%s/%s" % (name, type(e.exc).__name__, str(e.exc)[:60]))
+                if self.onclose and isinstance(e.exc, AttributeError) and "'NoneType' object has no attribute 'write'" in str(e.exc):
+                    # asyncio adapter: transport is detached (None) in connection_lost(); the attempted write surfaces
+                    # as this AttributeError in the event loop's exception handler
+                    detached += 1
             del self.world.escaped[:]
+        if n or detached:
+            self.violation("write-after-onClose/%s" % self.last_api_site(name),
+                           "%d transport write(s) after onClose had been delivered (during %s)%s" % (
+                               n or detached, name, " [attempted on the detached asyncio transport]" if detached and not n else ""),
+                           site=name)
 
     def last_api_site(self, name):
+        if name == "res":
+            return self.site
         return EVENT_SITE.get(name, name)
 
     def step(self, ev):
@@ -638,6 +765,8 @@ class Mon:
         try:
             if self.role == "server":
                 f = w.server_factory(options=opts, protocol_base=_base("server"))
+                if self.amode == "onconnect":
+                    f.vf_on_connect = self.script_on_connect
             else:
                 opts["serverConnectionDropTimeout"] = self.sdt
                 f = w.client_factory(options=opts, protocol_base=_base("client"))
@@ -664,6 +793,11 @@ class Mon:
                 self.site = "peer-tcp-drop"
                 ep.peer_close(clean=bool(case.get("fc", True)))
             self.after_event("final-drop")
+        # ---- the application's decision arrives only now, after the transport is gone
+        if self.amode and self.awaiting_result():
+            self.R.count("async_late_resolutions")
+            self.ev_res(case.get("late", "none"))
+            self.after_event("res")
         # ---- after the end: leftovers of timers and every send API once more
         self.site = "timer"
         self.world.advance(12.0)
@@ -679,7 +813,11 @@ class Mon:
         self.after_event("late-timers")
         # ---- final verdicts
         if len(self.onclose) == 0:
-            self.violation("onClose/missing", "connection-lost was delivered but onClose never fired", lost=ep.lost)
+            if self.amode and not self.opened:
+                # grey (ASSUMPTIONS): whether a connection that never became OPEN owes the application a close notification
+                R.count("onclose_missing_never_open_grey")
+            else:
+                self.violation("onClose/missing", "connection-lost was delivered but onClose never fired", lost=ep.lost)
         if self.cur_state != ST_CLOSED:
             self.violation("not-closed-after-transport-lost", "transport is gone but state is %s" % _state_name(self.cur_state))
         R.seen("final_paths", "%s/%s" % (self.role, ">".join(_state_name(b) for _, b in self.transitions)))
@@ -697,12 +835,14 @@ PAYLOAD_SITE = {b"prepared-payload": "sendPreparedMessage", b"hello": "sendMessa
                 b"sync-payload": "sendMessage", b"abc": "sendMessage", b"def": "sendMessage", b"gh": "sendMessage",
                 b"reply": "sendMessage", b"s1": "sendMessageFrame", b"s2s2": "sendMessageFrame", b"": "endMessage"}
 
+WRITE_EVENTS = ("write", "write-after-lost", "write-after-abort", "write-after-close")
+
 EVENT_SITE = {
     "close": "sendClose", "msg": "sendMessage", "ping": "sendPing", "pong": "sendPong",
     "prepared": "sendPreparedMessage", "sbegin": "beginMessage", "sframe": "sendMessageFrame", "send": "endMessage",
     "pclose": "peer-close", "pdata": "peer-data", "pping": "peer-ping", "ppong": "peer-pong", "pviol": "peer-violation",
     "pcombo": "peer-frames", "tick": "timer", "adv": "timer", "pdrop": "peer-tcp-drop", "fin": "own-drop-delivered",
-    "hs": "handshake",
+    "hs": "handshake", "res": "async-result",
 }
 
 
